@@ -301,8 +301,13 @@ class QlassF(QCircuitWrapper):
         assert isinstance(fun_ast.body[0], ast.FunctionDef)
 
         if isinstance(f, str):
-            exec(f, globals())
-        original_f = eval(fun_ast.body[0].name) if isinstance(f, str) else f
+            # Define the function in a namespace of its own (seeing the names of this
+            # module): a function called e.g. 'copy' must not replace them
+            f_ns = dict(globals())
+            exec(f, f_ns)
+            original_f = f_ns[fun_ast.body[0].name]
+        else:
+            original_f = f
 
         def _do_translate(fun_ast, original_f):
             # print(ast.dump(fun_ast, indent=4))
